@@ -25,7 +25,7 @@ func init() {
 			"metadata PUT and metadata PATCH persist the metadata record only behind an exact check-and-set on the metadata version (a supplied metadata_cas must equal CurrentMetadataVersion of the record read under the lock, or 0 for a new key), and a request without metadata_cas reaches the write neither when the key's nor when the engine's metadata_cas_required is set (required = key OR engine; evaluated phi-sensitively so that the short-circuit value is followed); " +
 			"(5) data/subkeys reads hold the read lock, read the version data of the same number whose metadata entry they checked (current or requested), and only for an existing, non-destroyed, not-yet-deleted version; the payload returned lies behind a successful, non-empty storage Get; " +
 			"(3) no error result of a storage call, transaction call or kv storage helper in package kv is dropped (deferred Rollback excepted); " +
-			"second-tier mechanisms: getVersionKey salts an identifier that depends on both the key and the version number and returns a key built from that salted id; getKeyMetadata reads the record of its key parameter through Wrap(getKeyEncryptor, storage parameter), answers (nil, nil) only for an absent item and a record only after a successful Get and decode, and writeKeyMetadata writes (meta.Key, Marshal(meta)) through the same wrapper; every Configuration that config() hands out is a literal copying every exported setting from the cached configuration (b.globalConfig or the object just installed as it), never the cached object itself, which callers modify before persisting; HandlePatchOperation merges with the stored resource as document and the pre-processed request as patch, and the kv patch pre-processor hands on exactly the request's data field; patch reads and merges its base only for an existing, non-destroyed, not-yet-deleted current version; the upgradeCheck wrapper reaches the wrapped handler only across upgrading.Load() being false, and the upgrade goroutine clears the flag only after the last per-key rewrite; the per-key lock table is written only by the factory; Salt() caches the salt NewSalt created through the caller's storage only across 'that storage is not a transaction' or 'the salt was not generated by this call' (a salt generated inside a transaction is not durable until commit); in the batch handlers (delete, undelete, destroy) no nil-error return is reachable from inside a loop over the request's version numbers except across the loop's exit edge, and where the metadata write follows the loop every nil-error return after it passes that write (skipping one version continues the loop).",
+			"second-tier mechanisms: getVersionKey salts an identifier that depends on both the key and the version number and returns a key built from that salted id; getKeyMetadata reads the record of its key parameter through Wrap(getKeyEncryptor, storage parameter), answers (nil, nil) only for an absent item and a record only after a successful Get and decode, and writeKeyMetadata writes (meta.Key, Marshal(meta)) through the same wrapper; every Configuration that config() hands out is a literal copying every exported setting from the cached configuration (b.globalConfig or the object just installed as it) — made in config() itself or by a helper of the package all of whose returns are such a literal of the parameter that receives the cache — never the cached object itself, which callers modify before persisting; HandlePatchOperation merges with the stored resource as document and the pre-processed request as patch, and the kv patch pre-processor hands on exactly the request's data field; patch reads and merges its base only for an existing, non-destroyed, not-yet-deleted current version; the upgradeCheck wrapper reaches the wrapped handler only across upgrading.Load() being false, and the upgrade goroutine clears the flag only after the last per-key rewrite; the per-key lock table is written only by the factory; Salt() caches the salt NewSalt created through the caller's storage only across 'that storage is not a transaction' or 'the salt was not generated by this call' (a salt generated inside a transaction is not durable until commit); in the batch handlers (delete, undelete, destroy) no nil-error return is reachable from inside a loop over the request's version numbers except across the loop's exit edge, and where the metadata write follows the loop every nil-error return after it passes that write (skipping one version continues the loop).",
 		NotDecided: "linearizability of concurrent histories as such (schedules); 'affects only the versions named' beyond the provenance of the version numbers (value-level set reasoning: AddVersion's pruning window arithmetic, the JSON merge in metadata patch, cleanupOldVersions stopping at the first missing blob); atomicity on non-transactional storage when a failure hits between the version write and the metadata write (by design there is none); conflict detection / isolation inside the storage transaction implementation; the engine configuration (read outside the per-key lock and transaction by design); the upgrade routine (upgrade.go upgradeKey), which is not a registered handler and runs while all handlers are refused.",
 		Run:        runC14,
 	})
